@@ -205,6 +205,9 @@ impl SerialPortSettings for MockSettings {
     }
     fn set_baud_rate(&mut self, baud_rate: BaudRate) -> serial_core::Result<()> {
         if self.fail_baud {
+            if FAIL_KIND.with(|c| c.get()) != 'n' {
+                return Err(dev_err("scripted: baud rate refused"));
+            }
             return Err(serial_core::Error::new(serial_core::ErrorKind::InvalidInput, "scripted: baud rate refused"));
         }
         self.inner.baud_rate = baud_rate;
@@ -266,8 +269,22 @@ impl Write for MockPort {
         Ok(())
     }
 }
+thread_local! {
+    /// which error kind the scripted device failures use (set by the `:k` suffix of a `port` case's fail token)
+    pub static FAIL_KIND: std::cell::Cell<char> = const { std::cell::Cell::new('n') };
+}
 fn dev_err(what: &str) -> serial_core::Error {
-    serial_core::Error::new(serial_core::ErrorKind::NoDevice, what.to_string())
+    use serial_core::ErrorKind as K;
+    let kind = match FAIL_KIND.with(|c| c.get()) {
+        'v' => K::InvalidInput,
+        'i' => K::Io(io::ErrorKind::Interrupted),
+        't' => K::Io(io::ErrorKind::TimedOut),
+        'o' => K::Io(io::ErrorKind::Other),
+        'w' => K::Io(io::ErrorKind::WouldBlock),
+        'p' => K::Io(io::ErrorKind::PermissionDenied),
+        _ => K::NoDevice,
+    };
+    serial_core::Error::new(kind, what.to_string())
 }
 impl SerialDevice for MockPort {
     type Settings = MockSettings;
@@ -381,6 +398,13 @@ pub fn show_settings(s: &PortSettings) -> String {
     )
 }
 pub fn parse_fail(s: &str) -> Option<FailAt> {
+    // optional `:k` suffix: the kind of error the refusing call returns (n v i t o w p)
+    let (s, kind) = match s.split_once(':') {
+        Some((a, k)) if k.len() == 1 && "nvitowp".contains(k) => (a, k.chars().next().unwrap()),
+        Some(_) => return None,
+        None => (s, 'n'),
+    };
+    FAIL_KIND.with(|c| c.set(kind));
     Some(match s {
         "never" => FailAt::Never,
         "read" => FailAt::ReadSettings,
